@@ -26,4 +26,40 @@ Step(G, K, st, ev) ==
       [] ev.op = "writeg" -> StepWrite(G, st, ev.i, ev.v, FALSE)
       [] ev.op = "setg" -> StepWrite(G, st, ev.i, ev.v, TRUE)
       [] ev.op = "readc" -> [st |-> st, exc |-> "", ret |-> K[ev.i]]
+
+-----------------------------------------------------------------------------
+(* Result objects.  A function returning a struct by value (struct R mkr(T1 a, T2 b)) hands
+   Python a NEW struct object on every call; the program may keep it and later read its
+   fields, write a field, pass it by value to long long sumr(struct R), or compare identities.
+   objs = the kept results, in order of creation (values: sequences of field C values).
+     mk(vs)          r = lib.mkr(vs...)      -> appends the converted values, or raises
+     rdobj(j)        (r_j.f1, r_j.f2, ...)   -> the values r_j was created with / last given
+     wrobj(j, f, v)  r_j.f<f> = v            -> converts like a store; changes r_j only
+     passobj(j)      lib.sumr(r_j)           -> the sum of r_j's fields
+     same(j, k)      r_j is r_k              -> j = k
+     drop            forget the oldest result
+   Ideal: a result is an independent copy -- no later call and no write to another result
+   changes it.  variant "shared_result_buffer": every call returns (a view of) one buffer
+   allocated once per library, as a broken generic engine would. *)
+RECURSIVE FieldSumR(_, _, _)
+FieldSumR(ts, c, j) == IF j > Len(ts) THEN Zeros(8)
+                       ELSE AddC(Ext(c[j], SignedT(ts[j]), 8), FieldSumR(ts, c, j + 1))
+ObjStep(R, objs, ev, variant) ==
+    LET shared == variant = "shared_result_buffer" IN
+    CASE ev.op = "mk" ->
+           LET r == ConvSeq(R.fields, ev.vs, 1) IN
+           IF ~r.ok THEN [objs |-> objs, exc |-> r.exc, ret |-> None]
+           ELSE [objs |-> IF shared THEN TLCEval([j \in 1..(Len(objs) + 1) |-> r.c]) ELSE Append(objs, r.c),
+                 exc |-> "", ret |-> None]
+      [] ev.op = "rdobj" -> [objs |-> objs, exc |-> "", ret |-> ToPy(R, objs[ev.j])]
+      [] ev.op = "wrobj" ->
+           LET r == ConvertItem(R.fields[ev.f], ev.v) IN
+           IF ~r.ok THEN [objs |-> objs, exc |-> r.exc, ret |-> None]
+           ELSE [objs |-> IF shared THEN TLCEval([j \in 1..Len(objs) |-> [objs[j] EXCEPT ![ev.f] = r.c]])
+                          ELSE [objs EXCEPT ![ev.j][ev.f] = r.c],
+                 exc |-> "", ret |-> None]
+      [] ev.op = "passobj" -> [objs |-> objs, exc |-> "", ret |-> ToPy(I64, FieldSumR(R.fields, objs[ev.j], 1))]
+      [] ev.op = "same" -> [objs |-> objs, exc |-> "", ret |-> [k |-> "pybool", b |-> (shared \/ ev.j = ev.k)]]
+      [] ev.op = "drop" -> [objs |-> Tail(objs), exc |-> "", ret |-> None]
+ObjOps == {"mk", "rdobj", "wrobj", "passobj", "same", "drop"}
 =============================================================================
